@@ -5,7 +5,6 @@ import (
 	"bytes"
 	"fmt"
 	"math"
-	"os"
 	"runtime/debug"
 	"testing"
 
@@ -361,11 +360,8 @@ func build(m Msg, net *sim.Net, v *sim.Node, byz []int, known []types.BlockID, p
 }
 
 func runCase(c Case, x *h.Ctx) {
-	dir, err := os.MkdirTemp("", "c08-")
-	if err != nil {
-		panic(err)
-	}
-	defer os.RemoveAll(dir)
+	dir, doneDir := sim.TempDir("c08-")
+	defer doneDir()
 	ps := make([]int64, c.N)
 	for i := range ps {
 		ps[i] = 1
